@@ -863,13 +863,28 @@ class Unit:
                 return self.resolve(parse_type(s2), n)
             raise
 
+    def enum_ctype(self, name):
+        """C type of an enumeration: its fixed underlying type when it has one (enum class E : uint64_t), else int"""
+        ed = self.enums.get(name)
+        fx = (ed or {}).get('fixedUnderlyingType', {})
+        q = fx.get('desugaredQualType') or fx.get('qualType')
+        if q:
+            try:
+                r = self.resolve(parse_type(q))
+                if r[0] == 'b':
+                    return r[1]
+            except Abort:
+                pass
+        return 'int'
+
     def ctype(self, ty, name=''):
         """C declaration of `name` with type ty"""
         k = ty[0]
         if k == 'b':
             return (ty[1] + ' ' + name).strip()
         if k == 'enum':
-            return ('int ' if ty[1] != 'std::memory_order' else 'int ') + name if name else 'int'
+            base = self.enum_ctype(ty[1])
+            return (base + ' ' + name).strip()
         if k == 'rec':
             sn = self.need_struct(ty[1])
             return (sn + ' ' + name).strip()
@@ -916,7 +931,7 @@ class Unit:
         if ty[0] == 'ptr':
             return 'ptr'
         if ty[0] == 'enum':
-            return 'i32'
+            return self.type_tag(('b', self.enum_ctype(ty[1])))
         if ty[0] == 'rec':
             return sanitize(self.struct_cname(ty[1]))
         raise Abort('type_tag %r' % (ty,))
